@@ -27,6 +27,15 @@ open NasdaqModel
 @[simp] theorem inner_setEvent (s : St) : s.setEvent.inner = s.inner := by
   unfold St.setEvent; split <;> rfl
 
+@[simp] theorem inner_d2Return (s : St) : (d2Return s).inner = s.inner := by
+  unfold d2Return
+  split
+  · split
+    · split <;> rfl
+    · rfl
+    · rfl
+  · rfl
+
 @[simp] theorem inner_feed1 (a : ACfg) (s : St) (n : Nat) : (feed1 a s n).inner = s.inner := by
   unfold feed1; split <;> simp
 
@@ -60,7 +69,7 @@ theorem IReach.pre {a : ACfg} {s s0 s' : St} (h0 : s0.inner = s.inner) (h : IRea
   exact ⟨es, by rw [h, h0]⟩
 
 theorem finishClose_reach (a : ACfg) (s : St) (t : Sess.Tid) : IReach a s (finishClose a s t) :=
-  IReach.pre (s0 := { s with cpc := .finished }) rfl (IReach.innerStep a _ _)
+  (IReach.pre (s0 := { s with cpc := .finished }) rfl (IReach.innerStep a _ _)).trans (IReach.of_eq (inner_d2Return _))
 
 theorem endCb_reach (a : ACfg) (s : St) (t : Sess.Tid) : IReach a s (endCb a s t) :=
   IReach.pre (s0 := (s.emit2 .cbExit).setEvent) (by simp) (finishClose_reach a _ t)
@@ -147,6 +156,13 @@ theorem startClose_reach (a : ACfg) (s : St) (t : ATid) (p : AProg) : IReach a s
     IReach.pre (s0 := { s with evt := some false }) rfl (IReach.innerStep a _ _)
   exact h1.trans (IReach.of_eq (by simp))
 
+theorem closeOnD2_reach (a : ACfg) (s : St) (p : AProg) : IReach a s (closeOnD2 a s p) := by
+  unfold closeOnD2
+  simp only
+  split
+  · exact IReach.of_eq (by simp)
+  · exact IReach.pre (s0 := (({ s with evt := some false } : St).setA .D2 .inSoup).setP .D2 p) rfl (passInner_reach a _ _)
+
 theorem dispHandle2_reach (a : ACfg) (s : St) (v : Nat) : IReach a s (dispHandle2 a s v) := by
   unfold dispHandle2
   split
@@ -155,7 +171,7 @@ theorem dispHandle2_reach (a : ACfg) (s : St) (v : Nat) : IReach a s (dispHandle
   · exact IReach.of_eq rfl
   · split
     · exact IReach.of_eq rfl
-    · exact startClose_reach a s _ _
+    · exact closeOnD2_reach a s _
   · exact IReach.of_eq rfl
   · exact IReach.of_eq rfl
 
@@ -164,7 +180,7 @@ theorem handlerDone_reach (a : ACfg) (s : St) (t : ATid) (v : Nat) : IReach a s 
   split
   · split
     · exact IReach.of_eq rfl
-    · exact startClose_reach a s _ _
+    · exact closeOnD2_reach a s _
   · exact IReach.of_eq rfl
 
 theorem stepDisp2_reach (a : ACfg) (s : St) : IReach a s (stepDisp2 a s) := by
@@ -183,11 +199,9 @@ theorem stepRun2_reach (a : ACfg) (s : St) (t : ATid) : IReach a s (stepRun2 a s
   split
   · split
     · exact IReach.of_eq rfl
-    · exact IReach.of_eq rfl
     · split
       · exact IReach.of_eq rfl
-      · exact IReach.pre rfl (startClose_reach a _ _ _)
-    · exact IReach.of_eq rfl
+      · exact IReach.pre (s0 := { s with imm2 := false }) rfl (closeOnD2_reach a _ _)
     · split <;> exact IReach.of_eq rfl
     · exact IReach.of_eq rfl
     · exact IReach.of_eq rfl
@@ -198,9 +212,7 @@ theorem stepRun2_reach (a : ACfg) (s : St) (t : ATid) : IReach a s (stepRun2 a s
     · split
       · exact IReach.pre rfl (handlerDone_reach a _ _ _)
       · exact IReach.of_eq rfl
-    · exact IReach.of_eq rfl
     · split <;> exact IReach.of_eq rfl
-    · exact IReach.of_eq rfl
     · split
       · exact IReach.of_eq rfl
       · split <;> exact IReach.of_eq rfl
@@ -223,12 +235,18 @@ theorem startRecv2_inner (s : St) (u : Nat) : (startRecv2 s u).inner = s.inner :
 
 theorem step_reach (a : ACfg) (s : St) (ev : Ev) : IReach a s (step a s ev) := by
   cases ev with
-  | inner e => exact stepInner_reach a s e
+  | inner e =>
+    simp only [step]
+    split
+    · exact IReach.refl a s
+    · exact stepInner_reach a s e
   | run t =>
     simp only [step]
     split
     · exact stepRun2_reach a s t
-    · exact IReach.refl a s
+    · split
+      · exact IReach.pre (s0 := { s with imm2 := false }) rfl (stepInner_reach a _ _)
+      · exact IReach.refl a s
   | appClose u =>
     simp only [step]
     split
